@@ -27,7 +27,8 @@ UNITS = {
     'dec_macro': {'sources': ('core', 'fpdec', 'macros'), 'modes': ('F', 'D')},
     'quantize': {'sources': ('core', 'fpdec'), 'modes': ('F', 'D')},
     'wide': {'sources': ('core',), 'modes': ('F', 'D')},
-    'cmp_rkyv': {'sources': ('core', 'fpdec'), 'features': ('rkyv',), 'modes': ('F', 'D'), 'module': 'cmp', 'builder': 'build_rkyv'},
+    'cmp_rkyv': {'sources': ('core', 'fpdec'), 'features': ('rkyv',), 'modes': ('F', 'D'), 'module': 'cmp', 'builder': 'build_rkyv',
+                 'fallback_keys': ['ArchivedDecimal']},
     'cmp': {'sources': ('core', 'fpdec'), 'modes': ('F', 'D')},
     'checked_add_sub': {'sources': ('core', 'fpdec'), 'modes': ('F', 'D'), 'module': 'add_sub', 'builder': 'build_checked'},
 }
@@ -74,12 +75,13 @@ PROPS = {
     },
     'C08': {
         'units': ['core_kernel', 'cmp', 'cmp_rkyv'],
+        'thorough_extra': ['witness:ArchivedDecimal'],
         'title': 'Equality and ordering are by numeric value and form a total order',
         'design_ref': 'DESIGN.md section 7 (C08)',
         'assumptions': ['min/max/<,<=,>,>= are std default methods over cmp/partial_cmp (trusted std)',
                         'reflexive/antisymmetric/transitive: spec-level lemmas over val_cmp (spec/order.rs), connected to the code through the by_value postconditions',
                         'feature rkyv: the 6 comparison impls + Ord of ArchivedDecimal are verified on the --features rkyv expansion against the value of the Decimal they archive (rule R14: rkyv::Archived<i128> = i128, Archived<u8> = u8, i.e. a little-endian target without rkyv endian features)',
-                        'feature rkyv: archiving followed by deserialising being the identity is NOT decided: the derive-generated Archive/Serialize/Deserialize impls (and rkyv itself) are a trusted dependency; the manual raw-pointer impls for rkyv+packed are not under contract'],
+                        'feature rkyv: archiving followed by deserialising being the identity is NOT decided by any contract: the derive-generated Archive/Serialize/Deserialize impls (and rkyv itself) are a trusted dependency; the thorough tier adds a bounded sanity run (replay driver built with --features rkyv: archive, validate, compare, deserialize on the boundary/random operand pool) - labelled bounded, not proof; the manual raw-pointer impls for rkyv+packed are not exercised'],
     },
     'C02': {
         'units': ['core_kernel', 'wide', 'mul', 'checked_mul'],
